@@ -17,6 +17,7 @@ SYMOFF = {"jmp": 1, "jcc": 2, "call": 1}
 PATCHES = ["nop", "nop\nnop", "xchg %ax, %ax", "jmp {L}", "ret", "call {L}", "jne {L}\nnop", "nop\n.Lt:\nnop\njmp .Lt", "nop\ncall {L}\nnop",
            "nop\nret\nnop", "jne {L}", ".Ls:\ndec %eax\njne .Ls", "jmp .Le\n.string \"hi\"\n.Le:\nnop", ".Lq:\nnop", "call {L}\nxchg %ax, %ax",
            "nop\n.Lm:\njne .Lm\nret"]
+CFI_PATCHES = ["pushq %rax\n.cfi_adjust_cfa_offset 8\npopq %rax\n.cfi_adjust_cfa_offset -8", ".cfi_remember_state\nnop\n.cfi_undefined 3\nnop\n.cfi_restore_state"]
 DATA_PATCH = [b"\x01", b"\x02\x03", b"\x04\x05\x06\x07"]
 
 
@@ -24,7 +25,7 @@ class Case:
     """A module description (pure data), independent of gtirb objects, so that it can be rebuilt identically."""
 
     def __init__(self, rnd, nfun_max=2, with_data=True, with_aux=True, with_cfi=True, mods="ins,del,rep", with_funcs=True, max_mods=3,
-                 closed_tail=False, to_proxy=True, with_lead=False):
+                 closed_tail=False, to_proxy=True, with_lead=False, with_scope=True, with_misc=True, with_ext=False, cfi_patches=False, data_first=0.12):
         self.rnd = rnd
         # bytes in front of the first block that belong to no block (the interval starts at 0x1000 - lead, the blocks at 0x1000)
         self.lead = rnd.choice((1, 2, 5)) if with_lead and rnd.random() < 0.12 else 0
@@ -32,6 +33,8 @@ class Case:
         self.blocks = []          # dicts: kind 'c'/'d', insns [(kind,target)], data bytes, func index or None, labels
         nblocks_total = 0
         layout = []
+        if with_data and rnd.random() < data_first:
+            layout.append(dict(kind="d", data=bytes(rnd.randrange(256) for _ in range(rnd.randint(1, 4))), func=None))
         for f in range(max(nfun, 1)):
             nb = rnd.randint(1, 3)
             for b in range(nb):
@@ -64,7 +67,7 @@ class Case:
                 layout[i]["ins"][-1] = (k, rnd.choice(code_idx))
             elif k == "call":
                 entries = [j for j in code_idx if layout[j].get("fb") == 0]
-                layout[i]["ins"][-1] = (k, rnd.choice(entries))
+                layout[i]["ins"][-1] = (k, rnd.choice(entries) if not (with_ext and rnd.random() < 0.4) else rnd.choice(("EXT0", "EXT1")))
         for x in layout:
             if x.get("dsym"):
                 x["dsym"] = {o: rnd.choice(code_idx) for o in x["dsym"]}
@@ -87,6 +90,14 @@ class Case:
             for t in range(3):
                 if rnd.random() < 0.3:
                     self.aux.append((t, "bi", rnd.randrange(0, self.total_size() + 1), rnd.randrange(1000)))
+        # types / encodings (data blocks), profile / SCCs (code blocks): (table, block index); absent tables stay absent
+        self.misc = []
+        if with_misc:
+            present = [t for t in range(4) if t in (1, 3) or rnd.random() < 0.5]
+            for i, x in enumerate(layout):
+                for t in present:
+                    if (t < 2) == (x["kind"] == "d") and rnd.random() < 0.3:
+                        self.misc.append((t, i))
         if with_cfi and nfun:
             did = 0
             for f in range(nfun):
@@ -105,6 +116,10 @@ class Case:
                                 depth += {"M": 1, "R": -1}.get(kind, 0)
                                 self.cfi.setdefault(i, {}).setdefault(b, []).append((kind, did))
                                 did += 1
+                            elif depth == 0 and b < self.size(i) and rnd.random() < 0.08:
+                                # the procedure ends here and the next one starts at the same place
+                                self.cfi.setdefault(i, {}).setdefault(b, []).extend([("E", did), ("S", did + 1), ("D", did + 2)])
+                                did += 3
                     self.cfi.setdefault(last, {}).setdefault(self.size(last), []).append(("E", did))
                     did += 1
         self.entry = rnd.choice(code_idx) if rnd.random() < 0.2 else None
@@ -129,11 +144,20 @@ class Case:
                     continue
                 used.append((off, ln))
                 if x["kind"] == "c":
-                    patch = rnd.choice(PATCHES).replace("{L}", f"L{rnd.choice(code_idx)}")
+                    patch = rnd.choice(PATCHES + (CFI_PATCHES * 4 if cfi_patches else [])).replace("{L}", f"L{rnd.choice(code_idx)}")
                 else:
                     patch = rnd.choice(DATA_PATCH)
                 whole = t == "del" and off == 0 and ln == self.size(i)
                 self.mods.append((i, t, off, ln, None if t == "del" else patch, whole and to_proxy and rnd.random() < 0.4))
+        # one registration through AllBlocksScope(ENTRY): an insertion at offset 0 of every code block, registered at a random
+        # position among the others; scope_groups: index in mods -> group
+        self.scope_groups = {}
+        if with_scope and rnd.random() < 0.1 and not any(t != "ins" and off == 0 and layout[i]["kind"] == "c" for (i, t, off, ln, _, _) in self.mods):
+            patch = rnd.choice(["nop", "xchg %ax, %ax", "nop\nnop"])
+            pos = rnd.randint(0, len(self.mods))
+            group = [(i, "ins", 0, 0, patch, False) for i in code_idx]
+            self.mods[pos:pos] = group
+            self.scope_groups = {pos + k: 0 for k in range(len(group))}
 
     # ---- explicit form (corpus entries do not depend on the generator)
     def to_json(self):
@@ -147,7 +171,7 @@ class Case:
             if isinstance(v, dict):
                 return {"dict": [[enc(k), enc(x)] for k, x in v.items()]}
             return v
-        return {k: enc(getattr(self, k)) for k in ("blocks", "nfun", "extra_start", "end_labels", "aux", "align", "cfi", "entry", "mods", "lead")}
+        return {k: enc(getattr(self, k)) for k in ("blocks", "nfun", "extra_start", "end_labels", "aux", "align", "cfi", "entry", "mods", "lead", "misc", "scope_groups")}
 
     @classmethod
     def from_json(cls, d):
@@ -163,11 +187,14 @@ class Case:
             return v
         c = cls.__new__(cls)
         c.lead = 0
+        c.misc = []
+        c.scope_groups = {}
         for k, v in d.items():
             setattr(c, k, dec(v))
         c.blocks = [{kk: ([tuple(i) for i in vv] if kk == "ins" else vv) for kk, vv in b.items()} for b in c.blocks]
         c.mods = [tuple(m) for m in c.mods]
         c.aux = [tuple(a) for a in c.aux]
+        c.misc = [tuple(a) for a in c.misc]
         c.cfi = {i: {d_: [tuple(x) for x in ds] for d_, ds in dm.items()} for i, dm in c.cfi.items()}
         return c
 
@@ -216,6 +243,12 @@ def build(case):
         bi.size = case.lead
     layout = case.blocks
     syms = [add_symbol(m, f"L{i}") for i in range(len(layout))]
+    ext = {}
+    if any(x["kind"] == "c" and isinstance(x["ins"][-1][1], str) for x in layout):
+        ext = {n: add_symbol(m, n, add_proxy_block(m)) for n in ("EXT0", "EXT1")}
+
+    def symof(t):
+        return ext[t] if isinstance(t, str) else syms[t]
     gbs = []
     exprs = []
     for i, x in enumerate(layout):
@@ -231,7 +264,7 @@ def build(case):
             se = {}
             k, t = x["ins"][-1]
             if t is not None:
-                e = gtirb.SymAddrConst(0, syms[t])
+                e = gtirb.SymAddrConst(0, symof(t))
                 se[(len(data) - len(ENC[k]) + SYMOFF[k], 4)] = e
                 exprs.append(e)
             gb = add_code_block(bi, data, se)
@@ -266,10 +299,10 @@ def build(case):
             if n is not None:
                 add_edge(ir.cfg, gbs[i], n, ET.Fallthrough)
         if k == "call":
-            add_edge(ir.cfg, gbs[i], gbs[t], ET.Call)
+            add_edge(ir.cfg, gbs[i], ext[t].referent if isinstance(t, str) else gbs[t], ET.Call)
             if n is not None:
                 add_edge(ir.cfg, gbs[i], n, ET.Fallthrough)
-                f = layout[t].get("func")
+                f = None if isinstance(t, str) else layout[t].get("func")
                 if f is not None:
                     callers[f].append(n)
     for i in code:
@@ -287,12 +320,16 @@ def build(case):
         m.aux_data[TABLES[t]].data[gtirb.Offset(elem, d + base)] = val
     for i, a in case.align.items():
         m.aux_data["alignment"].data[gbs[i]] = a
+    from gtirb_rewriting import _auxdata
+    for (t, i) in case.misc:
+        tab = (_auxdata.types, _auxdata.encodings, _auxdata.profile, _auxdata.sccs)[t].get_or_insert(m)
+        tab[gbs[i]] = ("t", "string", 7, 3)[t]
     for i, dm in case.cfi.items():
         for d, ds in dm.items():
             m.aux_data["cfiDirectives"].data[gtirb.Offset(gbs[i], d)] = [(DNAME[c], doperands(c, did) if c not in 'SEMR' else [did], NULL_UUID) for c, did in ds]
     if case.entry is not None:
         m.entry_point = gbs[case.entry]
-    B.ir, B.m, B.bi, B.gbs, B.syms, B.extra, B.fobjs, B.exprs = ir, m, bi, gbs, syms, extra, fobjs, exprs
+    B.ir, B.m, B.bi, B.gbs, B.syms, B.extra, B.fobjs, B.exprs = ir, m, bi, gbs, syms, extra + list(ext.values()), fobjs, exprs
     return B
 
 
@@ -366,7 +403,7 @@ def canonical_dump(m, ids, fids):
     for off, ds in m.aux_data["cfiDirectives"].data.items():
         if ds:
             lines.append(f"C {block_name(off.element_id, ids)} {off.displacement} " + ",".join(f"{DCLASS.get(d[0], 'O')}{d[1][-1] if d[1] else 0}" for d in ds))
-    for i, name in enumerate(("types", "encodings", "profile", "sccs")):
+    for i, name in enumerate(("types", "encodings", "profile", "SCCs")):
         if name in m.aux_data:
             for b in m.aux_data[name].data:
                 lines.append(f"M{i} {block_name(b, ids)}")
@@ -445,7 +482,7 @@ def dump_state(m, ids, fids, order):
             by.setdefault(id(o.element_id), (o.element_id, {}))[1][o.displacement] = v
         items = list(by.values())
     parts.append(dump_cfi(items, ids))
-    for name in ("types", "encodings", "profile", "sccs"):
+    for name in ("types", "encodings", "profile", "SCCs"):
         data = m.aux_data[name].data if name in m.aux_data else {}
         parts.append(str(len(data)) + " " + " ".join(str(ids.get(b, 'node')) for b in data))
     parts.append(str(-1 if m.entry_point is None else ids.get(m.entry_point, 'node')))
@@ -492,6 +529,38 @@ def dump_patch(code, ids):
 
 
 # ------------------------------------------------------------------------------------------- running the implementation
+def register(case, B, ctx, mk_patch, only=None):
+    """Registers the modifications of a case (all of them, or the ones whose index is in `only`) with a RewritingContext."""
+    import inspect
+    from gtirb_rewriting import AllBlocksScope, BlockPosition
+    done = set()
+    two = len(inspect.signature(mk_patch).parameters) == 2
+    for n, (i, t, off, ln, patch, to_proxy) in enumerate(case.mods):
+        if only is not None and n not in only:
+            continue
+        g = case.scope_groups.get(n)
+        if g is not None and only is None and g in done:
+            continue
+        if isinstance(patch, bytes) or patch is None:
+            p = patch
+        elif two:
+            p = mk_patch(patch, [k for k, g2 in case.scope_groups.items() if g2 == g] if g is not None and only is None else [n])
+        else:
+            p = mk_patch(patch)
+        if g is not None and only is None:
+            if g not in done:
+                done.add(g)
+                ctx.register_insert(AllBlocksScope(BlockPosition.ENTRY), p)
+            continue
+        blk = B.gbs[i]
+        if t == "ins":
+            ctx.insert_at(blk, off, p)
+        elif t == "del":
+            ctx.delete_at(blk, off, ln, retarget_to_proxy=to_proxy)
+        else:
+            ctx.replace_at(blk, off, ln, p)
+
+
 def run_impl(case, want_model_line=True, observe=None):
     """Runs ctx.apply() for the case.  Returns dict(line=model input line or None, dump=canonical dump or None,
     error=exception class or None, built=Built)."""
@@ -510,16 +579,17 @@ def run_impl(case, want_model_line=True, observe=None):
         ids.get(e, "expr")
     fids = {f.uuid: i for i, f in enumerate(B.fobjs)}
     ctx = gtirb_rewriting.RewritingContext(m, B.fobjs)
-    for (i, t, off, ln, patch, to_proxy) in case.mods:
-        blk = B.gbs[i]
-        p = patch if isinstance(patch, bytes) or patch is None else literal_patch(patch)
-        if t == "ins":
-            ctx.insert_at(blk, off, p)
-        elif t == "del":
-            ctx.delete_at(blk, off, ln, retarget_to_proxy=to_proxy)
-        else:
-            ctx.replace_at(blk, off, ln, p)
-    rec = {"state": None, "patches": [], "final": None, "codes": []}
+    rec = {"state": None, "patches": [], "final": None, "codes": [], "pending": None, "by_mod": {}}
+
+    def tracking_patch(text, ns):
+        # which registered modification is being assembled: the patch object knows the modifications it serves, the insertion
+        # context names the original block
+        @gtirb_rewriting.patch_constraints()
+        def patch(c):
+            rec["pending"] = next((n for n in ns if B.gbs[case.mods[n][0]] is c.block), ns[0])
+            return text
+        return gtirb_rewriting.Patch.from_function(patch)
+    register(case, B, ctx, tracking_patch)
     orig_cache, orig_insert = R.make_modify_cache, R.insert
 
     @contextlib.contextmanager
@@ -546,6 +616,15 @@ def run_impl(case, want_model_line=True, observe=None):
             if any(r_ is pb for pb in code.text_section.blocks):
                 labels[sy.name] = r_.offset + (r_.size if sy.at_end else 0)
         rec["codes"].append((bytes(code.text_section.data), code, labels))
+        n = rec["pending"]
+        rec["pending"] = None
+        if n is None:
+            # a bytes patch (no callback): the not yet served bytes modification with this content, in the order apply() uses
+            cands = sorted((case.mods[k][0], case.mods[k][2], k) for k in range(len(case.mods)) if k not in rec["by_mod"]
+                           and isinstance(case.mods[k][4], bytes) and case.mods[k][4] == bytes(code.text_section.data))
+            n = cands[0][2] if cands else None
+        if n is not None:
+            rec["by_mod"][n] = (len(rec["codes"]) - 1, dump_patch(code, ids) if want_model_line else None)
         if want_model_line:
             rec["patches"].append(dump_patch(code, ids))
         return orig_insert(cache, block, offset, replacement_length, code)
@@ -557,18 +636,8 @@ def run_impl(case, want_model_line=True, observe=None):
         err = type(e).__name__
     finally:
         R.make_modify_cache, R.insert = orig_cache, orig_insert
-    # which captured patch belongs to which registered modification (the order apply() uses)
-    mod_code = {}
-    if rec.get("blocks_in_order") is not None:
-        k = 0
-        for blk in rec["blocks_in_order"]:
-            if not any(blk is g for g in B.gbs):
-                continue
-            i = next(j for j, g in enumerate(B.gbs) if g is blk)
-            for off, n in sorted((off, n) for n, (bi_, t, off, ln, patch, to_proxy) in enumerate(case.mods) if bi_ == i and t != "del"):
-                if k < len(rec["codes"]):
-                    mod_code[n] = rec["codes"][k]
-                k += 1
+    # which captured patch belongs to which registered modification
+    mod_code = {n: rec["codes"][k] for n, (k, _) in rec["by_mod"].items()}
     line = None
     if want_model_line and rec["state"] is not None:
         # the work list: blocks in address order, modifications by (offset, registration order)
@@ -588,11 +657,11 @@ def run_impl(case, want_model_line=True, observe=None):
                 if t == "del":
                     toks.append(f"{off} D {ln} {1 if to_proxy else 0}")
                 else:
-                    if k >= len(rec["patches"]):
+                    if n not in rec["by_mod"]:
                         ok = False          # the implementation stopped before this patch was handed over
                         toks.append(f"{off} D 0 0")
                     else:
-                        toks.append(f"{off} I {ln} {rec['patches'][k]}")
+                        toks.append(f"{off} I {ln} {rec['by_mod'][n][1]}")
                     k += 1
             work.append(" ".join(toks))
         line = rec["state"] + f" {len(work)} " + " ".join(work) if ok else None
